@@ -73,6 +73,7 @@ class HarnessModule:
         self.inject = None
         self.t7 = []
         self.t7_keep = []
+        self.t7_path = []
         self.requires = []   # stems of helper modules (no harnesses of their own) to inject as well
         self.harnesses = []
         self._parse()
@@ -102,6 +103,9 @@ class HarnessModule:
                     self.inject = s.split(":", 1)[1].strip()
                 elif s.startswith("//! t7:"):
                     self.t7 += [x.strip() for x in s.split(":", 1)[1].split(",") if x.strip()]
+                elif s.startswith("//! t7-path:"):
+                    # files that name std::collections::HashMap / HashSet by full path (no `use` line to redirect)
+                    self.t7_path += [x.strip() for x in s.split(":", 1)[1].split(",") if x.strip()]
                 elif s.startswith("//! t7-keep-std:"):
                     # "<file>: <regex>": lines of <file> matching <regex> keep std's HashMap/HashSet under T7
                     f_, _, rx = s.split(":", 1)[1].strip().partition(":")
@@ -170,7 +174,8 @@ def snapshot_and_inject(mods):
     for m in mods:
         injected.setdefault(m.inject, []).append(m)
     t7_files = sorted({f for m in mods for f in m.t7})
-    special = set(injected) | set(t7_files) | {"src/lib.rs"}
+    t7_path_files = sorted({f for m in mods for f in m.t7_path})
+    special = set(injected) | set(t7_files) | set(t7_path_files) | {"src/lib.rs"}
     cmd = ["rsync", "-a", "--delete"]
     for e in EXCLUDES:
         cmd += ["--exclude", "/" + e]
@@ -213,6 +218,11 @@ def snapshot_and_inject(mods):
                             if not hit:
                                 problems.append(f"T7: no line matching {rx!r} in {rel}")
                             text = "\n".join(lines)
+        if rel in t7_path_files:
+            new_text = re.sub(r"std::collections::(HashMap|HashSet)<", r"crate::bsv_vecmap::\1<", text)
+            if new_text == text:
+                problems.append(f"T7: no std::collections::HashMap< / HashSet< path in {rel}")
+            text = new_text
         if not text.endswith("\n"):
             text += "\n"
         if rel == "src/lib.rs":
